@@ -20,7 +20,7 @@ from ..util import digest, short, stream
 
 ID = "C15"
 PRELOAD = ["sqllineage.config", "sqllineage.runner", "sim.props.c15"]
-BUDGET_S = {"quick": 120.0, "thorough": 1500.0}
+BUDGET_S = {"quick": 240.0, "thorough": 1500.0}
 
 KEYS = ["DEFAULT_SCHEMA", "DIRECTORY", "TSQL_NO_SEMICOLON", "LATERAL_COLUMN_ALIAS_REFERENCE"]
 BOOL_KEYS = {"TSQL_NO_SEMICOLON", "LATERAL_COLUMN_ALIAS_REFERENCE"}
@@ -49,7 +49,7 @@ DESCRIPTION = {
     "real_code": ["sqllineage/config.py (_SQLLineageConfigLoader, the module-level SQLLineageConfig object)", "os.environ"],
     "stubs": ["threading as seen by sqllineage.config: get_ident / enumerate / current_thread / active_count answer with simulated identities (sim/sched.py ThreadingShim); Lock/RLock created by sqllineage code are SimLock scheduling points", "thread scheduling (baton)"],
     "assumptions": [
-        "override values stay in the documented domain (strings, ints, bools; no None, no non-numeric objects for boolean keys)",
+        "accepted override values stay in the documented domain (strings, ints, bools); values a boolean key cannot coerce (None, list, dict) are generated only as attempts that must be rejected without a trace - or, on a tree that coerces them, as a scope opened and closed at once",
         "a bare SQLLineageConfig(**valid) call that is never entered is not generated (the statement does not describe it)",
         "pre-emption at every source line and function return of config.py in 2/3 of the runs and at every bytecode instruction of config.py in 1/3 (the granularity at which the GIL switches); dict/set operations implemented in C are atomic, as under the GIL",
         "environment flips happen between operations of the operator actor, i.e. between lines of config.py, never inside os.environ.get",
@@ -57,7 +57,7 @@ DESCRIPTION = {
     "required_probes": {
         "quick": ["rejected_open_then_read", "nested_rejected_then_outer_read", "exit_while_other_in_scope", "ident_reused",
                   "falsy_override_masks_env", "switch_in___call__", "switch_in___enter__", "switch_in___exit__", "switch_in___getattr__", "insertion_sweep", "crowd",
-                  "strict_warnings_world", "runner_constructed_in_scope", "runner_evaluation_failed", "foreign_thread"],
+                  "strict_warnings_world", "runner_constructed_in_scope", "runner_evaluation_failed", "foreign_thread", "open_rejected_because_of_a_value"],
         "thorough": ["rejected_open_then_read", "nested_rejected_then_outer_read", "exit_while_other_in_scope", "ident_reused",
                      "ident_reused_after_rejected_open", "falsy_override_masks_env", "read_straddles_env_flip"],
     },
@@ -136,7 +136,20 @@ def _body(g, swarm, n):
     return ops
 
 
+BAD_VALUES = [None, [1], {"a": 1}]  # what int() refuses with something other than ValueError (boolean keys only)
+
+
+def _badvalue(g):
+    """A call that is rejected because of a VALUE: valid keys, one boolean key carrying something that cannot be coerced."""
+    kw = _kw(g, g.choice([1, 1, 2]), keys=[k for k in KEYS if k not in BOOL_KEYS] + ["LATERAL_COLUMN_ALIAS_REFERENCE"])
+    bk = g.choice([k for k in sorted(BOOL_KEYS) if k not in [x[0] for x in kw]])
+    kw.insert(g.choice([len(kw), len(kw), g.randrange(len(kw) + 1)]), [bk, g.choice(BAD_VALUES)])
+    return ["badvalue", kw]
+
+
 def _bad(g):
+    if g.random() < 0.25:
+        return _badvalue(g)
     kw = _kw(g, g.choice([0, 1, 1, 2]))
     pos = g.randrange(len(kw) + 1)
     kw.insert(pos, [g.choice(["UNKNOWN", "default_schema", "DEFAULT_SCHEMAS"]), g.choice(["x", 1, True])])
@@ -465,6 +478,23 @@ def run_one(spec: dict) -> dict:
                 else:
                     w.log(t.idx, "bad", op[1], "accepted")
                     w.violate("bad_accepted", f"thread {t.idx}: override with unknown key accepted: {op[1]!r}", t.idx)
+            elif kind == "badvalue":
+                kw = {k: v for k, v in op[1]}
+                outer = w.scopes.get(t.idx)
+                try:
+                    with cfg(**kw):
+                        # (a tree that coerces the value instead of refusing it: the scope is simply opened and closed)
+                        w.log(t.idx, "badvalue", op[1], "accepted")
+                        if in_scope:
+                            w.violate("nested_accepted", f"thread {t.idx}: nested override was not refused: {op[1]!r}", t.idx)
+                except (Boom, HarnessError):
+                    raise
+                except Exception as e:
+                    w.log(t.idx, "badvalue", op[1], "rejected:" + type(e).__name__)
+                    w.probe("open_rejected_because_of_a_value")
+                    t.ctx["after_bad"] = True
+                    t.ctx["ever_bad"] = True
+                w.scopes[t.idx] = outer
             elif kind == "scope":
                 if in_scope:
                     raise HarnessError("generator produced a scope inside a scope; use 'nested'")
@@ -862,10 +892,10 @@ def _op_variants(ops):
             if len(op[1]) > 1:
                 for k in range(len(op[1])):
                     out.append(ops[:i] + [[op[0], op[1][:k] + op[1][k + 1:], op[2]]] + ops[i + 1:])
-        elif op[0] == "bad":
+        elif op[0] in ("bad", "badvalue"):
             if len(op[1]) > 1:
                 for k in range(len(op[1])):
-                    if op[1][k][0] in KEYS:
+                    if op[1][k][0] in KEYS and not (op[0] == "badvalue" and op[1][k][1] in BAD_VALUES):
                         out.append(ops[:i] + [[op[0], op[1][:k] + op[1][k + 1:]]] + ops[i + 1:])
     return out
 
